@@ -558,7 +558,9 @@ def main():
         body = [f"property: {pid}", f"tier: {tier}", f"seed: {a.seed}", "kind: failing-input",
                 "what: the property predicate is false on the implementation's output for the operation(s) below",
                 f"replay with: ./check.py {pid} --replay <this file>", ""]
-        for op, v in tally.fails[:20]:
+        # smallest failing operations first (the generators produce each construct at many sizes: the
+        # shortest failing line is the practical minimisation)
+        for op, v in sorted(tally.fails, key=lambda x: len(x[0]))[:20]:
             body.append("op: " + op)
             body.append("verdict: " + v)
             body.append("")
